@@ -278,9 +278,17 @@ def typed_value(v):
 
 
 def run_program(prog, vlevel):
-    line = gfapy.Line("S\tA\t*\txx:i:1", vlevel=vlevel)
+    lines = [gfapy.Line("S\tA\t*\txx:i:1", vlevel=vlevel)]
     for step, (op, name, vi, via) in enumerate(prog):
+        which = 0
+        if isinstance(via, list):
+            via, which = via
+        line = lines[which % len(lines)]
         try:
+            if op == "clone":
+                # a copy of the line (also a copy of a copy): from now on two lines are edited side by side
+                lines.append(line.clone())
+                continue
             if op == "set":
                 v = typed_value(TYPED[vi % len(TYPED)])
                 if via == "attr":
@@ -301,7 +309,7 @@ def run_program(prog, vlevel):
                 "%s/%s" % (op, type(e).__name__))
         if "# INVALID" in s_:
             raise Violation("valid-program-marked", "vlevel %d: after step %d of %r the line is written as %r" % (vlevel, step, prog, s_))
-    return str(line)
+    return "\n".join(str(x) for x in lines)
 
 
 def prop_typed(case):
@@ -329,12 +337,17 @@ def st_typed(draw):
             return "B"
         return "J"
     prog = []
-    cur = {}
+    curs = [{}]
+    with_clones = gen.chance(r, 0.4)
     for _ in range(r.randint(1, 7)):
-        op = gen.choice(r, ["set", "set", "set", "delete", "none"])
+        op = gen.choice(r, ["set", "set", "set", "delete", "none"] + (["clone"] if with_clones and len(curs) < 3 else []))
         name = gen.choice(r, ["zz", "ab", "q1"])
         vi = r.randrange(len(TYPED))
-        if op == "set":
+        which = r.randrange(len(curs))
+        cur = curs[which]
+        if op == "clone":
+            curs.append(dict(cur))
+        elif op == "set":
             if name in cur:
                 # the datatype of an existing tag stays: only a value of the same kind is valid
                 same = [i for i, v in enumerate(TYPED) if kind(v) == cur[name]]
@@ -342,7 +355,8 @@ def st_typed(draw):
             cur[name] = kind(TYPED[vi])
         else:
             cur.pop(name, None)
-        prog.append([op, name, vi, gen.choice(r, ["set", "attr"])])
+        via = gen.choice(r, ["set", "attr"])
+        prog.append([op, name, vi, [via, which] if with_clones else via])
     return {"prog": prog}
 
 
